@@ -47,7 +47,7 @@ def main():
                     line.append("tests: " + r.stdout.strip()[-60:])
                 for prop in props:
                     t0 = time.time()
-                    r = sh("%s/run_check.py %s --tier %s" % (ROOT, prop, tier))
+                    r = sh("timeout -k 5 900 %s/run_check.py %s --tier %s" % (ROOT, prop, tier))
                     viol = [l for l in r.stdout.splitlines() if l.startswith("VIOLATION")]
                     line.append("%s rc=%d %s (%.0fs)" % (prop, r.returncode, "CAUGHT" if r.returncode == 1 and viol else "MISSED" if r.returncode == 0 else "ERROR", time.time() - t0))
                     if r.returncode == 2:
